@@ -1,22 +1,44 @@
 //! Per-call CPU budget: a call through the public API that has burnt more than a budget of its
 //! *own thread's CPU time* without returning is a livelock (a busy retry loop that makes no
 //! progress). CPU time, unlike wall-clock time, does not grow because the machine is loaded.
+//!
+//! Fast path (enter / leave) touches only the calling thread's own slot.
 
 use parking_lot::Mutex;
-use std::collections::HashMap;
+use std::sync::atomic::{AtomicU64, AtomicUsize, Ordering};
 use std::sync::{Arc, OnceLock};
-use std::thread::ThreadId;
 
 struct Slot {
     pthread: libc::pthread_t,
-    call: String,
-    cpu_at_entry_ns: u64,
+    /// thread CPU time at entry + 1 (0 = not inside a watched call)
+    cpu_at_entry_ns: AtomicU64,
+    call_ptr: AtomicUsize,
+    call_len: AtomicUsize,
+    alive: std::sync::atomic::AtomicBool,
 }
 
-static SLOTS: OnceLock<Mutex<HashMap<ThreadId, Slot>>> = OnceLock::new();
+static SLOTS: OnceLock<Mutex<Vec<Arc<Slot>>>> = OnceLock::new();
 
-fn slots() -> &'static Mutex<HashMap<ThreadId, Slot>> {
-    SLOTS.get_or_init(|| Mutex::new(HashMap::new()))
+struct Registration(Arc<Slot>);
+impl Drop for Registration {
+    fn drop(&mut self) {
+        self.0.alive.store(false, Ordering::Release);
+        self.0.cpu_at_entry_ns.store(0, Ordering::Release);
+    }
+}
+
+thread_local! {
+    static MINE: Registration = {
+        let slot = Arc::new(Slot {
+            pthread: unsafe { libc::pthread_self() },
+            cpu_at_entry_ns: AtomicU64::new(0),
+            call_ptr: AtomicUsize::new(0),
+            call_len: AtomicUsize::new(0),
+            alive: std::sync::atomic::AtomicBool::new(true),
+        });
+        SLOTS.get_or_init(|| Mutex::new(Vec::new())).lock().push(slot.clone());
+        Registration(slot)
+    };
 }
 
 fn clock_ns(id: libc::clockid_t) -> u64 {
@@ -26,18 +48,24 @@ fn clock_ns(id: libc::clockid_t) -> u64 {
 }
 
 /// The calling thread is about to enter `call`.
-pub fn enter(call: &str) {
-    let slot = Slot { pthread: unsafe { libc::pthread_self() }, call: call.to_string(), cpu_at_entry_ns: clock_ns(libc::CLOCK_THREAD_CPUTIME_ID) };
-    slots().lock().insert(std::thread::current().id(), slot);
+#[inline]
+pub fn enter(call: &'static str) {
+    MINE.with(|m| {
+        m.0.call_ptr.store(call.as_ptr() as usize, Ordering::Relaxed);
+        m.0.call_len.store(call.len(), Ordering::Relaxed);
+        m.0.cpu_at_entry_ns.store(clock_ns(libc::CLOCK_THREAD_CPUTIME_ID) + 1, Ordering::Release);
+    });
 }
 
 /// The call returned.
+#[inline]
 pub fn leave() {
-    slots().lock().remove(&std::thread::current().id());
+    MINE.with(|m| m.0.cpu_at_entry_ns.store(0, Ordering::Release));
 }
 
 /// Run `f` as a watched call.
-pub fn watched<T>(call: &str, f: impl FnOnce() -> T) -> T {
+#[inline]
+pub fn watched<T>(call: &'static str, f: impl FnOnce() -> T) -> T {
     enter(call);
     let r = f();
     leave();
@@ -46,16 +74,25 @@ pub fn watched<T>(call: &str, f: impl FnOnce() -> T) -> T {
 
 /// (call, cpu seconds burnt inside it) of the worst in-flight call, if any exceeds `budget_s`.
 pub fn over_budget(budget_s: f64) -> Option<(String, f64)> {
-    let slots = slots().lock();
+    let slots = SLOTS.get_or_init(|| Mutex::new(Vec::new())).lock();
     let mut worst: Option<(String, f64)> = None;
-    for slot in slots.values() {
+    for slot in slots.iter() {
+        let at_entry = slot.cpu_at_entry_ns.load(Ordering::Acquire);
+        if at_entry == 0 || !slot.alive.load(Ordering::Acquire) {
+            continue;
+        }
         let mut cid: libc::clockid_t = 0;
         if unsafe { libc::pthread_getcpuclockid(slot.pthread, &mut cid) } != 0 {
             continue;
         }
-        let burnt = clock_ns(cid).saturating_sub(slot.cpu_at_entry_ns) as f64 / 1e9;
+        let burnt = clock_ns(cid).saturating_sub(at_entry - 1) as f64 / 1e9;
+        // the call may have returned in between: re-check that it is still the same call
+        if slot.cpu_at_entry_ns.load(Ordering::Acquire) != at_entry {
+            continue;
+        }
         if burnt > budget_s && worst.as_ref().is_none_or(|w| burnt > w.1) {
-            worst = Some((slot.call.clone(), burnt));
+            let name = unsafe { std::str::from_utf8_unchecked(std::slice::from_raw_parts(slot.call_ptr.load(Ordering::Relaxed) as *const u8, slot.call_len.load(Ordering::Relaxed))) };
+            worst = Some((name.to_string(), burnt));
         }
     }
     worst
